@@ -353,6 +353,29 @@ PLAN = {
         ],
         "require_counters": {"all": ["circuits", "errors_cycle", "errors_unknown_input", "parser_inputs", "parser_errors", "aiger_roundtrips"]},
     },
+    "C19": {
+        "level": "exploration",
+        "rule": "the real C FFI code (crates/oxidd-ffi-c compiled as an rlib from the working tree) driven in-process: random call "
+                "sequences over the bdd/bcdd/zbdd entry points (229-230 of the 239 exported symbols per shard: constructors, all "
+                "connectives, ite, quantifiers, substitution, cofactors, node_count, sat_count, pick_cube*, eval, names, var/level maps, "
+                "set_var_order, gc, DDDMP/DOT export, visualize, ref/unref), 2..5 variables, ample and tiny (2..14) node capacities, 1..3 "
+                "threads, every call mirrored on a second manager through the Rust API: truth table through oxidd_*_eval == independent "
+                "interpretation of the Rust result, node counts, names, maps; after EVERY call an exact reference-count audit of the C "
+                "manager against an explicit ownership model, operands unchanged; invalid handles in every operand position must yield "
+                "invalid handles; teardown in two orders: 0 inner nodes after unref-all + gc, store destroyed (LIVE_STORES hook) within "
+                "2 s. Enumerated: 1969 (entry point x operand shape) calls in fresh managers + manager life-cycle patterns. Lifecycle: "
+                "managers created and dropped at once must be freed. distinct = distinct (kind, function, argument shape) calls checked.",
+        "assumptions": ["the FFI cannot run under Miri (ABI check on mirror structs); the Rust code behind it is covered by the C05/C07/C16 Miri jobs",
+                        "C++/Python wrappers above the C ABI are not exercised", "functions documented to require valid handles are never fed invalid ones"],
+        "jobs": [
+            {"monitor": "c19_ffi", "variant": "rel", "shards": 16},
+            {"monitor": "c19_ffi", "variant": "dbg", "shards": 8},
+            {"monitor": "c19_ffi_enum", "variant": "rel", "shards": 16},
+            {"monitor": "c19_lifecycle", "variant": "rel", "shards": 4},
+            {"monitor": "c19_ffi", "variant": "asan", "shards": 8, "tiers": ("thorough",)},
+        ],
+        "require_counters": {"all": ["ffi_calls", "invalid_handles_returned", "refcount_audits", "managers_created_and_dropped"]},
+    },
     "C20": {
         "level": "exploration",
         "cross_variant_digest": True,
@@ -424,6 +447,15 @@ PLAN = {
 HOOK_COMMITS = ['80fb3bbcc8d132db20ab96212733b3813c7bf871', '2dc4f85ea148049a5963f1c757f3d318d4996439', '2651018efa7abaad5c14a39704064549b045ccb8', 'e3facf511f2781e84fd357182b0b721f4a29773e']
 
 MANIFEST_TEXT = {
+    "C19": {
+        "text": "Held on every executed call sequence: the real FFI code is driven in-process and mirrored call-by-call on the Rust "
+                "API; results, node counts, names and maps agree; an exact reference-count audit against an explicit ownership model "
+                "runs after every call; invalid operands propagate; after releasing everything the manager holds no nodes and is "
+                "destroyed.",
+        "design_ref": "DESIGN.md section 5 / C19",
+        "note": "Trusted: mirror structs of the C handle types in harness/src/mon/c19.rs; LIVE_STORES hook counter.",
+        "technique": "runtime monitoring: differential execution C API vs Rust API + ownership model with reference-count audit after every call",
+    },
     "C20": {
         "text": "Held on the executed corpus: every configuration is checked against the model and the audits on its own, and the "
                 "digests of all corpus items agree across thread counts and across the build variants (3 in quick, all 8 in thorough).",
